@@ -245,45 +245,11 @@ func TestReproConfigKickReasonLost(t *testing.T) {
 	}
 }
 
-// 1.20.2+: while a switch tells the client to re-enter the configuration phase, the writer
-// state is set to CONFIG and the play-packet queue is switched on in two separate steps. A
-// play packet written by another goroutine in between (here: chat messages, as
-// ConnectWithIndication sends them for "already connecting") is encoded for CONFIG, fails,
-// and the player's connection is closed.
-func TestReproMessageDuringConfigSwitch(t *testing.T) {
-	if os.Getenv("C16_REPRO") == "" {
-		t.Skip("set C16_REPRO=1")
-	}
-	for try := 0; try < 1500; try++ {
-		_, bs, c, pl := reproSetup(t, 767, nil)
-		stop := make(chan struct{})
-		var wg sync.WaitGroup
-		wg.Add(1)
-		go func() {
-			defer wg.Done()
-			for {
-				select {
-				case <-stop:
-					return
-				default:
-					// what ConnectWithIndication does for an InProgress result (paced: the
-					// play-packet queue is bounded and closes the connection when flooded)
-					_ = pl.CreateConnectionRequest(bs["s0"].Server()).ConnectWithIndication(context.Background())
-					time.Sleep(50 * time.Microsecond)
-				}
-			}
-		}()
-		r, err := pl.CreateConnectionRequest(bs["s1"].Server()).Connect(context.Background())
-		close(stop)
-		wg.Wait()
-		time.Sleep(2 * time.Millisecond)
-		gone := c.EOF()
-		c.Close()
-		if gone {
-			t.Logf("try %d: Connect(s1) -> %s; the client connection was closed by the proxy (no disconnect packet: %v)", try, status(r, err), c.Kicked() == nil)
-			t.Errorf("DEFECT: a message sent while the switch was in progress closed the player's connection")
-			return
-		}
-	}
-	t.Logf("1500 switches with concurrent messages: player never disconnected")
-}
+// Not reproduced stand-alone (two-statement window): 1.20.2+ switchToConfigState sets the
+// writer state to CONFIG and activates the play-packet queue in two steps; a chat message
+// written in between by another goroutine (ConnectWithIndication's "already connecting"
+// message) fails to encode ("packet id for type *chat.SystemChat ... not registered in the
+// ClientBound Config state registry") and closes the player's connection. Reproduce with the
+// monitor itself: VERIF_SEED=1 C16_ONLY=92x600 <test binary> -test.run TestC16 fires
+// "failure:player-disconnected-without-cause" about 4 times in 600 runs on the unchanged
+// tree (race build), never with proposed_fixes/C16-config-switch-writer-state.diff.
